@@ -4,12 +4,14 @@
    through as a read dependency (also when it ends in KeyError), pure reads
    declare nothing and change nothing; what a write changes is announced (the
    footprint theorems of C04) and a leaf conflict is resolved exactly (C07).
-   The outcome statement itself (second commit conflicts, or the stored tree is
-   sound with serial or disjointly merged contents) is checked by the harness
-   on pairs of transactions in both commit orders; it is not proved (see
+   The outcome statement (second commit conflicts, or the stored tree is sound
+   with serial or disjointly merged contents) is proved for containers that are
+   one leaf (C08_leaf_outcome); for multi-node trees it is checked by the
+   harness on pairs of transactions in both commit orders, not proved (see
    DESIGN.md). *)
 From Coq Require Import ZArith List Bool.
 From BT Require Import Model.RTree Model.TreeSpec Model.TreeRun Model.Persist Model.PersistSpec Proofs.SyncProofs.
+From BT Require Import Model.Merge Model.MergeSpec Proofs.OutcomeProofs.
 Import ListNotations.
 Open Scope Z_scope.
 
@@ -41,6 +43,34 @@ Theorem C08_reads_declare_nothing :
   is_read c = true -> fst (step vsame isC ml mi s c) = s.
 Proof. exact SyncProofs.reads_are_silent. Qed.
 Print Assumptions C08_reads_declare_nothing.
+
+(* The outcome clause for a container that is ONE leaf (Bucket, Set, or a tree
+   in its embedded single-leaf form, by C07_tree_level): when the second
+   transaction's record (n) meets the first one's committed record (c) over
+   the common original (o), the commit either raises a conflict or stores the
+   original with both change sets applied, and these change sets are disjoint --
+   no third outcome (no other error, no exhausted fuel).  If one of the two
+   changed nothing the result is the other one's state (the serial result). *)
+Theorem C08_leaf_outcome :
+  forall (V : Type) (veq : V -> V -> bool), (forall a b, veq a b = true <-> a = b) ->
+  forall o c n : leafstate V,
+  keys_sorted V (fst o) /\ keys_sorted V (fst c) /\ keys_sorted V (fst n) ->
+  (exists p1 p2 p3 reason, bucket_resolve V veq o c n = RConflict p1 p2 p3 reason) \/
+  (exists r, bucket_resolve V veq o c n = ROk (r, snd o) /\
+             merged V (fst o) (fst c) (fst n) r /\ r <> [] /\
+             (forall k, ~ (touched V (fst o) (fst c) k /\ touched V (fst o) (fst n) k))).
+Proof. exact OutcomeProofs.leaf_outcome. Qed.
+Print Assumptions C08_leaf_outcome.
+
+Theorem C08_leaf_outcome_serial :
+  forall (V : Type) (veq : V -> V -> bool), (forall a b, veq a b = true <-> a = b) ->
+  forall (o c n : leafstate V) r,
+  keys_sorted V (fst o) /\ keys_sorted V (fst c) /\ keys_sorted V (fst n) ->
+  bucket_resolve V veq o c n = ROk (r, snd o) ->
+  (fst n = fst o -> forall k, lookup V r k = lookup V (fst c) k) /\
+  (fst c = fst o -> forall k, lookup V r k = lookup V (fst n) k).
+Proof. exact OutcomeProofs.leaf_outcome_serial. Qed.
+Print Assumptions C08_leaf_outcome_serial.
 
 Example C08_example :
   let t := Node 0%nat [(0, Node 1%nat [(0, Leaf 2%nat [(1, 0)]); (3, Leaf 3%nat [(3, 0)])]); (5, Node 4%nat [(5, Leaf 5%nat [(5, 0)])])] in
